@@ -15,8 +15,8 @@
     the batch (epoch); a source in dispatch is not re-entered;
   * `_run_handlers` wraps *all* handlers of a signal in one `try` (`catchRun`): `ExitMainLoop` quits every loop
     (nothing is unwound beyond it), an ordinary exception enqueues an `ExceptionSignal` and skips the remaining
-    handlers; the source is destroyed and the ticket line marked *after* the handlers (`endRun`); there is no
-    force-quit test between two handlers;
+    handlers; the source is destroyed and the ticket line marked *after* the handlers (`endRun`); `_force_quit` is tested
+    before the loop and before each handler call (`break`: the rest of `_run_handlers` still runs);
   * `close_loop` pops the loop and quits it (no drain; the running batch goes on); with no loop left every loop API
     call that indexes `_event_loops[-1]` raises `IndexError` (an ordinary exception);
   * `process_signals()` = one non-blocking iteration of the top loop's context; `process_signals(c)` = non-blocking
@@ -387,9 +387,12 @@ def step (P : Prog) (c0 : Cfg) : Except (Outcome × Cfg) Cfg :=
       match hs with
       | .live =>
         match (handlersOf c.L s.cls)[i]? with
-        | some (h, d) => .ok (push c [.callH h d s, .gCall s hs (i + 1)])
+        | some (h, d) =>
+          if c.L.forceQuit then .ok (c.trace (.dispatched s i))      -- no handler can run after the force quit: `break`
+          else .ok (push c [.callH h d s, .gCall s hs (i + 1)])
         | none => .ok (c.trace (.dispatched s i))
-      | .kill => if i = 0 then .ok (push c [.kill s, .gCall s hs 1]) else .ok (c.trace (.dispatched s i))
+      | .kill =>
+        if i = 0 ∧ ¬ c.L.forceQuit then .ok (push c [.kill s, .gCall s hs 1]) else .ok (c.trace (.dispatched s i))
       | .empty => .ok (c.trace (.dispatched s i))
     | .catchRun => .ok c
     | .endRun q g =>
